@@ -10,4 +10,6 @@ cargo +1.98.1-x86_64-unknown-linux-gnu build --offline --no-default-features \
    --features compress,charsets,multipart-form,json,form 2>&1 | tail -3
 sha256sum /repo/Cargo.lock /repo/Cargo.toml > $V/build/deps.stamp
 ls $V/build/depsrc/target/debug/deps/libhttp-*.rlib $V/build/depsrc/target/debug/deps/liburl-*.rlib >/dev/null
+# warm the Kani dependency cache (scratch copy, removed afterwards)
+python3 $V/vp/kani_engine.py intertwine_alternates_a_first_keeps_order >/dev/null 2>&1 || true
 echo setup-ok
